@@ -55,6 +55,11 @@ example : (∀ c ∈ C01.demo, c.WF) ∧
     query (run (init 2) C01.demo) 1 (.nodes) = .nats [2, 7, 8] :=
   ⟨C01.demo_wf, by decide, by decide⟩
 
+/-- the hypothesis `WF` is needed (and is where the quantifier's "node sets" enters): the code accepts a tuple
+with a repeated node and then lists that hyperedge twice for the node - as does the model -/
+example : query (run (init 1) [.on 0 (.addEdge [1, 1] none none)]) 0 (.incident 1 {}) = .edges [[1, 1], [1, 1]] := by
+  decide
+
 /-- **Refinement: every query, after every history, is answered as the abstract hypergraph of that history.**
 `Spec` is a list of nodes with metadata plus an association list from node sets to (weight, metadata);
 `Spec.step` is the plain map update, `Spec.query` a filter / map over those two lists.  For every number of
@@ -151,9 +156,9 @@ example :
 /-- **Node order is irrelevant.** Every entry point that takes a hyperedge behaves identically on any two
 listings of the same node set (in every state, no hypothesis): `add_edge`, `remove_edge`, `set_weight`,
 `set_edge_metadata`, `set_attr_to_edge_metadata`, `remove_attr_from_edge_metadata`, `check_edge`, `get_weight`,
-`get_edge_metadata`; and `remove_edges` on batches whose members are re-listed. (`add_edges` with weights
-compares the *raw* tuples for repetitions before anything else - `[(1,2),(2,1)]` passes, `[(1,2),(1,2)]` is
-rejected; once accepted each member goes through `add_edge`, covered here.) -/
+`get_edge_metadata`; `remove_edges` and `add_edges` on batches whose members are re-listed.  The one
+hypothesis, for `add_edges` **with weights** only: that call first tests the *raw* tuples for repetitions
+(`[(1,2),(2,1)]` passes, `[(1,2),(1,2)]` is rejected), so the two listings must agree on that test. -/
 theorem C01_order_irrelevant (s : Store) (r1 r2 : List Nat) (hp : r1.Perm r2) :
     (∀ w md, apply s (.addEdge r1 w md) = apply s (.addEdge r2 w md)) ∧
     apply s (.removeEdge r1) = apply s (.removeEdge r2) ∧
@@ -165,7 +170,9 @@ theorem C01_order_irrelevant (s : Store) (r1 r2 : List Nat) (hp : r1.Perm r2) :
     answer s (.weight r1) = answer s (.weight r2) ∧
     answer s (.edgeMeta r1) = answer s (.edgeMeta r2) ∧
     (∀ ps : List (List Nat × List Nat), (∀ p ∈ ps, p.1.Perm p.2) →
-      apply s (.removeEdges (ps.map (·.1))) = apply s (.removeEdges (ps.map (·.2)))) := by
+      apply s (.removeEdges (ps.map (·.1))) = apply s (.removeEdges (ps.map (·.2))) ∧
+      ∀ ws mds, (ws.isSome = true → ((ps.map (·.1)).Nodup ↔ (ps.map (·.2)).Nodup)) →
+        apply s (.addEdges (ps.map (·.1)) ws mds) = apply s (.addEdges (ps.map (·.2)) ws mds)) := by
   have hc := canon_eq_of_perm hp
   refine ⟨?_, ?_, ?_, ?_, ?_, ?_, ?_, ?_, ?_, ?_⟩
   · intro w md; simp only [apply, addEdge, hc]
@@ -177,7 +184,7 @@ theorem C01_order_irrelevant (s : Store) (r1 r2 : List Nat) (hp : r1.Perm r2) :
   · simp only [answer, hc]
   · simp only [answer, hc]
   · simp only [answer, hc]
-  · intro ps h; exact removeEdges_congr s ps h
+  · intro ps h; exact ⟨removeEdges_congr s ps h, fun ws mds hnd => addEdges_congr s ps h ws mds hnd⟩
 
 /-- non-vacuity: two different listings of `{1,2,3}` -/
 example : [3, 1, 2].Perm [1, 2, 3] ∧ [3, 1, 2] ≠ [1, 2, 3] := by decide
